@@ -43,6 +43,12 @@ for pid in args:
             first = (json.load(open(m)).get('needs_to_manifest') or '').strip().splitlines()
             if first:
                 prev.append(first[0].lstrip('# ').strip())
+        if rnd >= 3:
+            mech = '; '.join('%s (%s)' % (m['name'], m['where']) for m in p['anchors'].get('mechanism', []))
+            t += ('\n\nThe property is anchored in these mechanisms of the code base: ' + mech + '. Several of them have not been '
+                  'exercised by earlier changes; prefer those, and prefer a change whose effect needs two places of the code to '
+                  'cooperate (e.g. a helper whose contract is changed subtly while its callers still rely on the old contract), '
+                  'or a state that survives from an earlier call.')
         if prev:
             t += ('\n\nEarlier changes made by other developers for this exercise were: '
                   + ' | '.join(prev) + ' -- choose different functions / mechanisms than those.')
